@@ -149,10 +149,10 @@ func c17ProfOracle(r *h.Result, c *c17ProfCase, text string) {
 			cond = "(" + field + ") == (" + c17SQLQuote(val) + ")"
 		case "!=":
 			cond = "(" + field + ") != (" + c17SQLQuote(val) + ")"
-		case "=~":
-			cond = "(match(" + field + ", " + c17SQLQuote(val) + ")) == (1)"
+		case "=~": // a label matcher matches the whole value: the pattern reaches match() anchored
+			cond = "(match(" + field + ", " + c17SQLQuote("^(?:"+val+")$") + ")) == (1)"
 		default:
-			cond = "(match(" + field + ", " + c17SQLQuote(val) + ")) != (1)"
+			cond = "(match(" + field + ", " + c17SQLQuote("^(?:"+val+")$") + ")) != (1)"
 		}
 		switch {
 		case arr:
